@@ -132,6 +132,8 @@ func evalPrograms(thorough bool) []progSpec {
 	out = append(out, subsetOf(m, allIdx(m), 3, nil)...)
 	l := gen.PoolL()
 	out = append(out, subsetOf(l, allIdx(l), 3, nil)...)
+	sp := gen.PoolS()
+	out = append(out, subsetOf(sp, allIdx(sp), 3, nil)...)
 	b := gen.PoolB()
 	kB := 2
 	if thorough {
@@ -189,7 +191,7 @@ func c01(r *rt.Run) {
 		}
 		c01Program(r, progs[i], kinds, i)
 	})
-	r.Finish("every subset of <=k rules of pools G (graph), R (rounds), N (negation), M (predicates with inline facts before/after their rules), L (bodies of 4-8 literals), B (built-ins) x every EDB of the pool x store kinds; " +
+	r.Finish("every subset of <=k rules of pools G (graph), R (rounds), N (negation), M (predicates with inline facts before/after their rules), L (bodies of 4-8 literals), S (structured values built by rules meeting separately constructed equal values), B (built-ins) x every EDB of the pool x store kinds; " +
 		"non-trivial = reference model needs >=3 rounds in a stratum, or has >=2 strata with a non-empty derived relation; distinct by construction (program,EDB)")
 }
 
